@@ -92,6 +92,12 @@ def is_mutually_unbiased_basis(vectors: list[np.ndarray | list[float | Any]]) ->
 
     num_bases = num_vectors // dim
 
+    # Every block of `dim` consecutive vectors has to be an orthonormal basis in the first place.
+    for i in range(num_bases):
+        basis = np.column_stack([np.asarray(vec).reshape(-1) for vec in vectors[i * dim : (i + 1) * dim]])
+        if not np.allclose(basis.conj().T @ basis, np.identity(dim)):
+            return False
+
     # Check the inner product between vectors from different bases.
     for i in range(num_bases):
         for j in range(i + 1, num_bases):
